@@ -8,8 +8,10 @@ UNITS = ["px", "em", "pt", "c", "%"]
 
 def abs_layout(rng, unit=None):
     u = unit or rng.choice(UNITS)
+    mixed = unit is None and rng.random() < 0.3          # absolute and relative lengths side by side in one layout
     def v(hi):
-        return "%s%s" % (rng.choice([0, 1, 4, 10, 36, 64] if u != "%" else [0, 5, 10, 25]), u)
+        uu = rng.choice(UNITS) if mixed and rng.random() < 0.5 else u
+        return "%s%s" % (rng.choice([0, 1, 4, 10, 36, 64] if uu != "%" else [0, 5, 10, 25]), uu)
     d = {"origin": [v(1), v(0)]}
     if rng.random() < 0.5:
         d["extent"] = [v(1), v(0)]
@@ -53,11 +55,33 @@ def run(chk):
             if rng.random() < 0.6:
                 L["extent"] = ["%d%%" % rng.choice([20, 50, 80, 100]), "%d%%" % rng.choice([10, 50, 80])]
             opts = {"relativize": rng.random() < 0.5}
+        if i % 7 == 3:
+            # relativization switched off and a layout that is only partly relative: nothing absolute may reach a WebVTT file
+            writer = "webvtt"; level = rng.choice(["language", "caption", "node"])
+            a_ = "%d%s" % (rng.choice([4, 40, 64]), rng.choice(["px", "em", "pt", "c"])); r_ = "%d%%" % rng.choice([5, 10, 25, 50])
+            L = {"origin": rng.choice([[a_, r_], [r_, a_]])}
+            if rng.random() < 0.5:
+                L["extent"] = rng.choice([[r_, a_], [a_, r_], ["50%", "20%"]])
+            opts = dict(rng.choice([{}, {"video_width": 640, "video_height": 360}]), relativize=False)
+            if rng.random() < 0.5:
+                opts["fit_to_screen"] = False
+        force_second = False
+        if i % 11 == 5:
+            # two languages, each with a language-level layout in absolute lengths (SAMI writes the paddings as margins)
+            writer = rng.choice(["sami", "dfxp"]); level = "language"; force_second = True
+            L = abs_layout(rng, unit=rng.choice(["px", "em", "pt", "c"]))
+            L["padding"] = ["%d%s" % (rng.choice([1, 4, 10, 36]), L["origin"][0][-2:] if not L["origin"][0][-1] == "c" else "c") for _ in range(4)]
+            opts = {"video_width": 640, "video_height": 360}
         node = ["T", "hello", L] if level == "node" else ["T", "hello"]
         nodes = [["S", True, {"italics": True}] + ([L] if level == "node" else []), node, ["S", False, {"italics": True}] + ([L] if level == "node" else [])]
         desc = {"langs": [{"lang": "en-US", "layout": L if level == "language" else None,
                            "caps": [{"start": 1000000, "end": 2000000, "nodes": nodes, "layout": L if level == "caption" else None}]}],
                 "layout": L if level == "set" else None}
+        if writer in ("dfxp", "sami") and (force_second or i % 3 == 0 or rng.random() < 0.2):
+            # a second language positioned the same way: every language goes through the same treatment
+            import copy
+            second = copy.deepcopy(desc["langs"][0]); second["lang"] = "fr-FR"
+            desc["langs"].append(second)
         cs = setbuild.build(desc)
         case = {"writer": writer, "level": level, "layout": L, "options": opts}
         absolute = any(not t.endswith("%") for k in ("origin", "extent", "padding") for t in (L.get(k) or []))
